@@ -1092,3 +1092,211 @@ impl<'a, K: Eq + Clone, V: Default, const N: usize> SmallEntry<'a, K, V, N> {
         self.map.get_mut(&self.key).unwrap()
     }
 }
+
+// ---------------------------------------------------------------------------
+// VecDeque<T>: fixed-capacity (CAP) stand-in for std::collections::VecDeque, for
+// units whose code pops/pushes a deque inside a loop (measured: with the heap
+// VecDeque every unwound iteration carries the grow/realloc path and CBMC runs out
+// of memory: C33 time cache, C48 refill).  ASSUMED CONTRACT replaced: "std VecDeque
+// is a double-ended queue".  Elements are kept compacted at the front of the array
+// and every access is at a constant index (no symbolic indexing); exceeding CAP
+// panics with the capacity marker (UNDECIDED, never a violation).
+pub struct VecDeque<T> {
+    slots: [Option<T>; CAP],
+}
+impl<T> Default for VecDeque<T> {
+    fn default() -> Self {
+        VecDeque { slots: [None, None, None, None] }
+    }
+}
+impl<T> VecDeque<T> {
+    pub fn new() -> Self {
+        Self::default()
+    }
+    pub fn with_capacity(_n: usize) -> Self {
+        Self::default()
+    }
+    pub fn len(&self) -> usize {
+        self.slots[0].is_some() as usize
+            + self.slots[1].is_some() as usize
+            + self.slots[2].is_some() as usize
+            + self.slots[3].is_some() as usize
+    }
+    pub fn is_empty(&self) -> bool {
+        self.slots[0].is_none()
+    }
+    pub fn clear(&mut self) {
+        self.slots = [None, None, None, None];
+    }
+    pub fn front(&self) -> Option<&T> {
+        self.slots[0].as_ref()
+    }
+    pub fn back(&self) -> Option<&T> {
+        if self.slots[3].is_some() {
+            self.slots[3].as_ref()
+        } else if self.slots[2].is_some() {
+            self.slots[2].as_ref()
+        } else if self.slots[1].is_some() {
+            self.slots[1].as_ref()
+        } else {
+            self.slots[0].as_ref()
+        }
+    }
+    /// i-th element from the front (elements are compacted)
+    pub fn get(&self, i: usize) -> Option<&T> {
+        match i {
+            0 => self.slots[0].as_ref(),
+            1 => self.slots[1].as_ref(),
+            2 => self.slots[2].as_ref(),
+            3 => self.slots[3].as_ref(),
+            _ => None,
+        }
+    }
+    pub fn pop_front(&mut self) -> Option<T> {
+        let f = self.slots[0].take();
+        self.slots[0] = self.slots[1].take();
+        self.slots[1] = self.slots[2].take();
+        self.slots[2] = self.slots[3].take();
+        f
+    }
+    pub fn pop_back(&mut self) -> Option<T> {
+        if self.slots[3].is_some() {
+            self.slots[3].take()
+        } else if self.slots[2].is_some() {
+            self.slots[2].take()
+        } else if self.slots[1].is_some() {
+            self.slots[1].take()
+        } else {
+            self.slots[0].take()
+        }
+    }
+    pub fn push_front(&mut self, t: T) {
+        if self.slots[3].is_some() {
+            overflow()
+        }
+        self.slots[3] = self.slots[2].take();
+        self.slots[2] = self.slots[1].take();
+        self.slots[1] = self.slots[0].take();
+        self.slots[0] = Some(t);
+    }
+    pub fn push_back(&mut self, t: T) {
+        if self.slots[0].is_none() {
+            self.slots[0] = Some(t);
+        } else if self.slots[1].is_none() {
+            self.slots[1] = Some(t);
+        } else if self.slots[2].is_none() {
+            self.slots[2] = Some(t);
+        } else if self.slots[3].is_none() {
+            self.slots[3] = Some(t);
+        } else {
+            overflow()
+        }
+    }
+    /// front-to-back order (a deque's iteration order is specified, so no rotation)
+    pub fn iter(&self) -> impl Iterator<Item = &T> + '_ {
+        self.slots.iter().filter_map(|c| c.as_ref())
+    }
+}
+
+// ---------------------------------------------------------------------------
+// BTreeSet<T>: fixed-capacity (CAP) stand-in for std::collections::BTreeSet.
+// ASSUMED CONTRACT replaced: "std BTreeSet is a finite set ordered by Ord".  Elements
+// are kept sorted and compacted at the front of the array; every access is at a
+// constant index; exceeding CAP panics with the capacity marker.
+pub struct BTreeSet<T> {
+    slots: [Option<T>; CAP],
+}
+impl<T> Default for BTreeSet<T> {
+    fn default() -> Self {
+        BTreeSet { slots: [None, None, None, None] }
+    }
+}
+impl<T: Ord> BTreeSet<T> {
+    pub fn new() -> Self {
+        Self::default()
+    }
+    pub fn len(&self) -> usize {
+        self.slots[0].is_some() as usize
+            + self.slots[1].is_some() as usize
+            + self.slots[2].is_some() as usize
+            + self.slots[3].is_some() as usize
+    }
+    pub fn is_empty(&self) -> bool {
+        self.slots[0].is_none()
+    }
+    pub fn contains(&self, t: &T) -> bool {
+        let mut found = false;
+        let mut i = 0;
+        while i < CAP {
+            if let Some(x) = &self.slots[i] {
+                if x.cmp(t) == std::cmp::Ordering::Equal {
+                    found = true;
+                }
+            }
+            i += 1;
+        }
+        found
+    }
+    /// true if the value was not present before
+    pub fn insert(&mut self, t: T) -> bool {
+        if self.contains(&t) {
+            return false;
+        }
+        if self.slots[CAP - 1].is_some() {
+            overflow()
+        }
+        // position = number of stored elements smaller than t
+        let mut p = 0;
+        let mut i = 0;
+        while i < CAP {
+            if let Some(x) = &self.slots[i] {
+                if x.cmp(&t) == std::cmp::Ordering::Less {
+                    p += 1;
+                }
+            }
+            i += 1;
+        }
+        // shift the tail one cell to the right, highest cell first
+        let mut j = CAP - 1;
+        while j > 0 {
+            if j > p {
+                self.slots[j] = self.slots[j - 1].take();
+            }
+            j -= 1;
+        }
+        let mut item = Some(t);
+        let mut k = 0;
+        while k < CAP {
+            if k == p {
+                self.slots[k] = item.take();
+            }
+            k += 1;
+        }
+        true
+    }
+    pub fn remove(&mut self, t: &T) -> bool {
+        let mut hit = false;
+        let mut i = 0;
+        while i < CAP {
+            if !hit {
+                let eq = match &self.slots[i] {
+                    Some(x) => x.cmp(t) == std::cmp::Ordering::Equal,
+                    None => false,
+                };
+                if eq {
+                    self.slots[i] = None;
+                    hit = true;
+                }
+            }
+            if hit && i + 1 < CAP {
+                self.slots[i] = self.slots[i + 1].take();
+            }
+            i += 1;
+        }
+        hit
+    }
+    /// ascending order
+    pub fn iter(&self) -> impl Iterator<Item = &T> + '_ {
+        self.slots.iter().filter_map(|c| c.as_ref())
+    }
+}
